@@ -27,6 +27,9 @@ type C07BlankOp struct {
 	// SameSrc: the call passes the SAME source object as the previous call,
 	// whose data has changed meanwhile (a caller refreshing a static source)
 	SameSrc bool `json:"same_src,omitempty"`
+	// BusySec: with a LIVE context and a hold point, the monitor stays parked
+	// for that many (virtual) seconds before it goes on; the caller waits
+	BusySec int `json:"busy_sec,omitempty"`
 }
 
 // simMutSource is a static source whose data can be swapped between two
@@ -72,6 +75,10 @@ func genC07Blank(t *rapid.T) C07BlankCase {
 		if gone {
 			op.Ctx = "deadline"
 		}
+		if op.Ctx == "live" && !gone && rapid.IntRange(0, 1).Draw(t, "busy") == 0 {
+			op.Hold = rapid.SampledFrom([]string{"verify", "reply"}).Draw(t, "busy_hold")
+			op.BusySec = rapid.SampledFrom([]int{1, 5, 90, 4000}).Draw(t, "busy_sec")
+		}
 		op.SameSrc = i > 0 && rapid.IntRange(0, 2).Draw(t, "same_src") == 0
 		c.Ops = append(c.Ops, op)
 	}
@@ -100,7 +107,7 @@ func runC07Blank(c C07BlankCase) (verdict vrt.Verdict) {
 			verdict = vrt.KeyedViolationf("panic", "panic / synctest failure (a SetSource that outlives its context leaves the bubble deadlocked): %v", p)
 		}
 	}()
-	heldCount, rejected, sameSrcCalls := 0, 0, 0
+	heldCount, rejected, sameSrcCalls, busyWaits := 0, 0, 0, 0
 	synctest.Test(curT, func(st *testing.T) {
 		cfgCtx, cfgCancel := context.WithCancel(context.Background())
 		r := &run{}
@@ -257,6 +264,40 @@ func runC07Blank(c C07BlankCase) (verdict vrt.Verdict) {
 					cur = l
 				}
 				gone = true
+			} else if held && op.Ctx == "live" {
+				heldCount++
+				busyWaits++
+				// the monitor is busy for a while; the caller's context never ends, so
+				// SetSource may only return with the monitor's answer
+				time.Sleep(time.Duration(op.BusySec) * time.Second)
+				synctest.Wait()
+				select {
+				case <-done:
+					fail("%s: the caller's context never ends and the monitor is still busy (%ds so far), yet SetSource returned %v: a blocking report returns only with the monitor's answer or when ITS context ends", step, op.BusySec, serr)
+					close(holdCh)
+					return
+				default:
+				}
+				close(holdCh)
+				synctest.Wait()
+				select {
+				case <-done:
+				default:
+					fail("%s: the monitor went on after %ds but SetSource (live context) did not return", step, op.BusySec)
+					cancel()
+					return
+				}
+				if valid && serr != nil {
+					fail("%s: SetSource of a valid value, waited for by a caller with a live context while the monitor was busy for %ds, returned %v", step, op.BusySec, serr)
+					return
+				}
+				if !valid && !errors.Is(serr, ErrInvalid) {
+					fail("%s: SetSource of a value that does not verify returned %v, want the verifier's error", step, serr)
+					return
+				}
+				if valid {
+					cur = l
+				}
 			} else if held {
 				heldCount++
 				// the monitor is parked; the only thing that can happen is the caller's deadline
@@ -370,7 +411,7 @@ func runC07Blank(c C07BlankCase) (verdict vrt.Verdict) {
 	if msg != "" {
 		return vrt.KeyedViolationf("blank", "%s", msg)
 	}
-	return vrt.OK(heldCount > 0 || c.ExitFirst || c.DoneFirst || rejected > 0, fmt.Sprintf("held=%d", min(heldCount, 3)), fmt.Sprintf("exit_first=%v", c.ExitFirst), fmt.Sprintf("done_first=%v", c.DoneFirst), fmt.Sprintf("reuse=%v", c.Reuse), fmt.Sprintf("same-source-again=%v", sameSrcCalls > 0), fmt.Sprintf("bad_watcher=%v", c.BadWatcherAt > 0 && c.BadWatcherAt <= len(c.Ops)), fmt.Sprintf("wrap=%d", c.Wrap))
+	return vrt.OK(heldCount > 0 || c.ExitFirst || c.DoneFirst || rejected > 0, fmt.Sprintf("held=%d", min(heldCount, 3)), fmt.Sprintf("exit_first=%v", c.ExitFirst), fmt.Sprintf("done_first=%v", c.DoneFirst), fmt.Sprintf("reuse=%v", c.Reuse), fmt.Sprintf("same-source-again=%v", sameSrcCalls > 0), fmt.Sprintf("bad_watcher=%v", c.BadWatcherAt > 0 && c.BadWatcherAt <= len(c.Ops)), fmt.Sprintf("wrap=%d", c.Wrap), fmt.Sprintf("busy-waits=%d", min(busyWaits, 2)))
 }
 
 func TestC08Blank(t *testing.T) {
@@ -390,7 +431,7 @@ func TestC07Blank(t *testing.T) {
 	vrt.Check(t, vrt.Prop[C07BlankCase]{
 		ID: "C07", Name: "blank",
 		Rule: "1..5 Blank.SetSource calls (inner sources static, sometimes the SAME object as in the previous call with new data; the last one static or watching, and a watching one must live exactly as long as the Dials) on a Blank inside a real Dials (bare, or wrapped in a transforming source; optionally next to another watcher), with a live context or a 1h virtual-time deadline, while the monitor is free, parked inside Verify or right before it answers (until the caller's deadline has passed), or already gone; " +
-			"oracle: nil => the view holds the value; a value whose stack does not verify => the verifier's error and an unchanged view; the caller's context ending first => SetSource returns a context error no later than its own deadline (virtual time), the monitor then finishes on its own and the Blank stays usable (its mutex is released); " +
+			"oracle: nil => the view holds the value; a value whose stack does not verify => the verifier's error and an unchanged view; the caller's context ending first => SetSource returns a context error no later than its own deadline (virtual time); a caller whose context never ends waits as long as the monitor is busy (1 s .. 4000 s of virtual time) and gets the monitor's answer, never a context error; the monitor then finishes on its own and the Blank stays usable (its mutex is released); " +
 			"non-trivial = a call that met a parked or exited monitor, or a rejected value; distinct = distinct case JSON",
 		Assumptions: []string{"SetSource is called after Config, as documented"},
 		Gen:         genC07Blank, Run: runC07Blank,
